@@ -54,12 +54,12 @@ func (k *Keeper) EthereumTx(
 	}
 
 	// ApplyEvmMsg - Perform the EVM State transition
-	stateDB := k.Bank.StateDB
+	stateDB := k.Bank.TxStateDB(ctx)
 	if stateDB == nil {
 		stateDB = k.NewStateDB(ctx, txConfig)
 	}
 	defer func() {
-		k.Bank.StateDB = nil
+		k.Bank.ClearTxStateDB(ctx)
 	}()
 	evmObj := k.NewEVM(ctx, evmMsg, evmCfg, nil /*tracer*/, stateDB)
 	evmResp, err = k.ApplyEvmMsg(
@@ -527,12 +527,12 @@ func (k Keeper) convertCoinToEvmBornCoin(
 		true,
 	)
 	txConfig := k.TxConfig(ctx, gethcommon.Hash{})
-	stateDB := k.Bank.StateDB
+	stateDB := k.Bank.TxStateDB(ctx)
 	if stateDB == nil {
 		stateDB = k.NewStateDB(ctx, txConfig)
 	}
 	defer func() {
-		k.Bank.StateDB = nil
+		k.Bank.ClearTxStateDB(ctx)
 	}()
 
 	evmObj := k.NewEVM(ctx, evmMsg, k.GetEVMConfig(ctx), nil /*tracer*/, stateDB)
@@ -586,12 +586,12 @@ func (k Keeper) convertCoinToEvmBornERC20(
 	funTokenMapping evm.FunToken,
 ) (*evm.MsgConvertCoinToEvmResponse, error) {
 	// needs to run first to populate the StateDB on the BankKeeperExtension
-	stateDB := k.Bank.StateDB
+	stateDB := k.Bank.TxStateDB(ctx)
 	if stateDB == nil {
 		stateDB = k.NewStateDB(ctx, k.TxConfig(ctx, gethcommon.Hash{}))
 	}
 	defer func() {
-		k.Bank.StateDB = nil
+		k.Bank.ClearTxStateDB(ctx)
 	}()
 
 	erc20Addr := funTokenMapping.Erc20Addr.Address
